@@ -91,6 +91,12 @@ impl<'a> Hist<'a> {
         self.ins.push(format!("F:{}", raw_to_frame_tok(raw, 0)));
         self.outs.push(o);
     }
+    /// a raw frame whose length code is above 8 (not a classic CAN frame; whatever happens, no unit may be credited)
+    fn overlong(&mut self, id: u32, dlc: u8) {
+        let o = self.rig.frame(&crate::bus::Bus::raw(id | 0x8000_0000, dlc, &[1, 2, 3, 4, 5, 6, 7, 8]));
+        self.ins.push(format!("X:{:08X}#{}", id & 0x1FFF_FFFF, dlc));
+        self.outs.push(o);
+    }
     fn cycle(&mut self) {
         let o = self.rig.cycle();
         self.ins.push("Y".into());
@@ -135,6 +141,11 @@ pub fn run_c10(out: &mut Out, tier: &str, rng: &mut Rng) {
         let mut drivers = vec![];
         for _ in 0..nd {
             let t = if timed { Some(1500) } else { *rng.pick(&[None, Some(3_600_000u64), Some(0)]) };
+            // an entry with an unknown (vendor, product) pair and its own timeout anywhere in the list: it is no unit, and the
+            // timeouts of the entries around it are theirs
+            if !timed && rng.chance(1, 4) {
+                drivers.push(DriverCfg { da: 0x30 + drivers.len() as u8, sa: None, timeout: *rng.pick(&[None, Some(3_600_000u64), Some(0)]), vendor: "acme".into(), product: "widget".into() });
+            }
             let d = known_driver(rng, t);
             if drivers.iter().any(|x: &DriverCfg| x.da == d.da) {
                 continue;
@@ -379,6 +390,12 @@ pub fn run_generic_auth(out: &mut Out, tier: &str, rng: &mut Rng, what: &str) {
                     let d = rng.pick(&cfg.drivers).clone();
                     let raw = frame_from_unit(rng, &d);
                     h.frame(&raw);
+                    // right after a frame that was credited to a unit: a malformed raw frame (length code above 8) from
+                    // anywhere - it must not be credited to anybody, in particular not to the unit that spoke last
+                    if rng.chance(1, 8) {
+                        let pgn = *rng.pick(&crate::drv::PGNS);
+                        h.overlong(make_id(6, pgn, 0xFF, *rng.pick(&[0x99u8, 0x27, d.da])), *rng.pick(&[9u8, 15, 64, 255]));
+                    }
                 }
                 3 => {
                     // the same kind of frame from a node that is not the unit
